@@ -135,15 +135,92 @@ def user_files(user):
     return list(user)
 
 
+# variable files in the INI flavour (`*.conf`): a file dictionary with a "conf" entry (how to write it) is written
+# as [GLOBAL] / [STAGE<n>] sections and read by DOSINIExperimentConfiguration._fetch_user_variables; every value
+# of such a file is a text (what an INI file can say)
+CONF_STYLES = {"upper": "STAGE%d", "lower": "stage%d", "title": "Stage%d", "mixed": "sTaGe%d"}
+# spellings the loader happens to accept because it hands the rest of the name to int(): compared with the model
+# only (conf-loader stream), no oracle is stated for them
+EXOTIC_STYLES = {"zero": "STAGE%02d", "space": "STAGE %d"}
+CONF_DELIMS = ["=", " = ", ":", " : ", "= "]
+
+
+def section_name(style, stage):
+    return (CONF_STYLES.get(style) or EXOTIC_STYLES[style]) % stage
+
+
+def conf_spec(rng):
+    """how a .conf file is written: spelling of the stage sections, option delimiter, order of the sections"""
+    return {"style": rng.choice(["upper", "upper", "lower", "title", "mixed"]),
+            "delim": rng.choice(CONF_DELIMS), "order": rng.choice(["asc", "desc"])}
+
+
+def conf_text(v):
+    return v if isinstance(v, str) else str(v)
+
+
+def confify(f, spec):
+    """turn the variable file `f` (in place) into one of the INI flavour: every value becomes the text an INI
+    file holds for it"""
+    f["conf"] = spec
+    if f.get("global"):
+        f["global"] = {k: conf_text(v) for k, v in f["global"].items()}
+    for st, sec in (f.get("stages") or {}).items():
+        f["stages"][st] = {k: conf_text(v) for k, v in (sec or {}).items()}
+    return f
+
+
+def maybe_confify(rng, files, p=0.35):
+    for f in files:
+        if rng.random() < p:
+            confify(f, conf_spec(rng))
+
+
+def conf_sections(f):
+    """[(section name, {option: text})] of a file of the INI flavour, in the order they are written"""
+    spec = f["conf"]
+    names = spec.get("names") or {}
+    stages = sorted((f.get("stages") or {}).items())
+    secs = [(names.get(str(st)) or section_name(spec["style"], st), dict(sec or {})) for st, sec in stages]
+    glob = [("GLOBAL", dict(f["global"]))] if f.get("global") else []
+    return glob + secs if spec["order"] == "asc" else list(reversed(secs)) + glob
+
+
+def render_conf(sections, delim):
+    lines = ["# user variables", ""]
+    for name, options in sections:
+        lines.append("[%s]" % name)
+        for k, v in options.items():
+            lines.append(("%s%s%s" % (k, delim, v)).rstrip())
+        lines.append("")
+    return "\n".join(lines)
+
+
 def write_user_files(user, tmpdir):
     import yaml
     paths = []
     for k, content in enumerate(user_files(user)):
-        path = os.path.join(tmpdir, "user%d.yaml" % k)
-        with open(path, "w") as fh:
-            yaml.safe_dump(content, fh)
+        if content.get("conf"):
+            path = os.path.join(tmpdir, "user%d.conf" % k)
+            with open(path, "w") as fh:
+                fh.write(render_conf(conf_sections(content), content["conf"]["delim"]))
+        else:
+            path = os.path.join(tmpdir, "user%d.yaml" % k)
+            with open(path, "w") as fh:
+                yaml.safe_dump(content, fh)
         paths.append(path)
     return paths
+
+
+def expected_user_variables(files):
+    """the documented meaning of several variable files (model independent): in every scope a name has the value
+    of the LAST file that defines it there; nothing else appears"""
+    exp = {"global": {}, "stages": {}}
+    for f in files:
+        exp["global"].update(to_json(f.get("global") or {}))
+        for st, vs in (f.get("stages") or {}).items():
+            exp["stages"].setdefault(str(st), {}).update(to_json(vs or {}))
+    return prune_empty(exp)
 
 
 def build(doc, user, tmpdir, paths=None):
@@ -164,6 +241,21 @@ def build(doc, user, tmpdir, paths=None):
             raise errs[0]
     conc.c04_source = (doc, paths)          # for the views that load document + files themselves
     return conc, desc, nstages
+
+
+def impl_user_variables(doc, paths, platform):
+    """get_user_variables() of a FlowIRExperimentConfiguration that reads the variable files itself"""
+    F = _F()
+    import experiment.model.conf as C
+    try:
+        conf = C.FlowIRExperimentConfiguration(None, platform, list(paths), {}, False, False, True,
+                                               concrete=F.FlowIRConcrete(copy.deepcopy(doc), platform, {}),
+                                               updateInstanceFiles=False, validate=False)
+        return {"ok": prune_empty(user_json(conf.get_user_variables()))}
+    except BaseException as exc:
+        if isinstance(exc, (KeyboardInterrupt, SystemExit)):
+            raise
+        return {"error": type(exc).__name__}
 
 
 STD_FLAGS = {"raw": False, "incl": True, "prim": False, "inject": True}
@@ -576,11 +668,13 @@ def visible(tag, platform):
     return False
 
 
-def mask_case(kind, route_i, mask, nulls, foreign, platform, stage, fill=None):
+def mask_case(kind, route_i, mask, nulls, foreign, platform, stage, fill=None, conf=None):
     case = {"kind": kind, "route": route_i, "mask": mask, "nulls": nulls, "foreign": foreign,
             "platform": platform, "stage": stage}
     if fill is not None:
         case["fill"] = fill     # variable files (0 / 1) that hold a section for the stage with ANOTHER name in it
+    if conf is not None and any(conf):
+        case["conf"] = conf     # per variable file: None (YAML) or how it is written as a .conf file
     return case
 
 
@@ -621,12 +715,18 @@ def materialise_mask(case):
         return doc, user, {"route": list(route), "expected": expected}
     else:
         user = new_user_files()
+        specs = case.get("conf") or [None, None]
+        for k, spec in enumerate(specs):
+            if spec:
+                user[k]["conf"] = spec
         expected = ("undefined",)
         for k, tag in enumerate(VAR_ORDER + FOREIGN):
             present = tag in case["mask"] or tag in case["foreign"]
             if not present:
                 continue
             value = "val-" + tag if k % 3 else 100 + k        # strings and integers
+            if tag in ("U", "US", "V", "VS") and specs[0 if tag[0] == "U" else 1]:
+                value = conf_text(value)                       # an INI file holds texts
             variable_target(doc, user, tag, stage, ci)["v"] = value
             if visible(tag, platform):
                 expected = ("value", value)
@@ -713,6 +813,7 @@ def gen_chain(rng):
     else:
         comp["references"] = []
         comp.setdefault("workflowAttributes", {})["shutdownOn"] = ["KnownIssue", top]
+    maybe_confify(rng, user)
     user = trim_user_files(user)
     return {"kind": "chain", "doc": doc, "user": user, "platform": platform, "stage": stage, "prim": prim,
             "fault": fault, "where": where, "top": top}
@@ -783,6 +884,7 @@ def gen_siblings(rng):
         comp["command"]["arguments"] = " ".join(top) or "nothing"
         if ovr:
             comp["override"]["p"] = {"variables": ovr}
+    maybe_confify(rng, user, 0.45)
     user = trim_user_files(user)
     asked = list(doc["components"])
     # stage indices are contiguous: a plain component in every stage that has none
@@ -792,6 +894,74 @@ def gen_siblings(rng):
                                       "override": {}})
     return [{"kind": "siblings", "doc": doc, "user": user, "platform": platform, "stage": c["stage"], "name": c["name"],
              "prim": False, "undefined": undefined} for c in asked]
+
+
+STAGE_VARS = ["x", "tag", "n"]
+
+
+def gen_stages(rng):
+    """a workflow with 12-14 stages, one component (the SAME name) per stage.  The package defines three
+    variables globally and re-defines some of them for some stages (default platform and p); the user supplies
+    one or two variable files - YAML or INI flavour (.conf: [GLOBAL] / [STAGE<n>] sections spelled in any letter
+    case, written in ascending or descending order) - with sections for a random subset of the stages in which
+    the stages 1, 10, 11 and the last one are frequent.  Every value says which file, name and stage it was
+    written for.  Every component reaches the three names from its arguments, half of them through a variable of
+    their own too.  One case per stage (same document); the first one also compares get_user_variables()."""
+    N = rng.randint(12, 14)
+    platform = rng.choice(["default", "p"])
+    doc = base_doc()
+    for sect in ("blueprint", "variables"):
+        for P in doc[sect].values():
+            P["stages"] = {st: {} for st in range(N)}
+    cname = rng.choice(SIB_NAMES)
+    doc["components"] = [{"name": cname, "stage": st, "command": {}, "variables": {}, "override": {}}
+                         for st in range(N)]
+    frequent = [1, 10, 11, N - 1]
+    for n in STAGE_VARS:
+        doc["variables"]["default"]["global"][n] = "pkg-%s" % n
+    for st in range(N):
+        for tag in ("DS",) + (("PG", "PS") if platform == "p" else ()):
+            if rng.random() < (0.4 if st in frequent else 0.12):
+                n = rng.choice(STAGE_VARS)
+                variable_target(doc, None, tag, st, st)[n] = "pkg-%s-%s-stage%d" % (tag, n, st)
+    user = new_user_files()
+    for k, f in enumerate(user):
+        if k == 1 and rng.random() < 0.45:
+            continue
+        if rng.random() < 0.7:
+            f["global"][rng.choice(STAGE_VARS)] = "user%d-global" % k
+        for st in range(N):
+            if rng.random() < (0.6 if st in frequent else 0.15):
+                sec = f["stages"].setdefault(st, {})
+                for n in STAGE_VARS:
+                    r = rng.random()
+                    if r < 0.45:
+                        sec[n] = "user%d-%s-stage%d" % (k, n, st)
+                    elif r < 0.6:
+                        sec[n] = 1000 * (k + 1) + st
+        if rng.random() < 0.65:
+            confify(f, conf_spec(rng))
+    user = trim_user_files(user)
+    for comp in doc["components"]:
+        top = ["%%(%s)s" % n for n in STAGE_VARS]
+        if rng.random() < 0.5:
+            n = rng.choice(STAGE_VARS)
+            comp["variables"]["use"] = "<%%(%s)s>" % n
+            top.append("%(use)s")
+        if rng.random() < 0.15:
+            n = rng.choice(STAGE_VARS)
+            comp["variables"][n] = "%s-own-of-stage%d" % (n, comp["stage"])
+        comp["command"]["arguments"] = " ".join(top)
+    cases = []
+    for st in range(N):
+        case = {"kind": "stages", "doc": doc, "user": user, "platform": platform, "stage": st, "name": cname,
+                "prim": False}
+        if st == 0 and user is not None:
+            case["check_user_vars"] = True
+        if user is not None and st in (1, 10, 11) and rng.random() < 0.6:
+            case["views"] = ["instance", rng.choice(["conf-files", "conf-files", "reparam"])]
+        cases.append(case)
+    return cases
 
 
 def layered_variables(doc, user, platform, comp):
@@ -1110,7 +1280,7 @@ def judge_answer(ctx, case, out, table, mout=None, view=None):
         elif fault in ("incomplete", "invalid"):
             if "ok" in out:
                 fail("malformed-reference-accepted", out)
-    elif kind == "siblings":
+    elif kind in ("siblings", "stages"):
         exp = expected_sibling(case)
         if exp is None:
             if out.get("error") != "unknown-variable":
@@ -1148,6 +1318,19 @@ def judge_answer(ctx, case, out, table, mout=None, view=None):
 # running cases
 # ----------------------------------------------------------------------------------------
 
+def judge_build_failure(ctx, case, exc, tmpdir):
+    """the description loads on its own but not with the user's (well-formed) variable files: the user-supplied
+    layer is not applied at all"""
+    if case.get("user") is None:
+        return
+    try:
+        build(case["doc"], None, tmpdir)
+    except Exception:
+        return
+    ctx.case(case, nontrivial=True, tags=["kind:" + case["kind"], "variable-files-rejected"])
+    ctx.fail("well-formed-variable-files-are-rejected", case, {"error": type(exc).__name__, "message": str(exc)[:300]})
+
+
 def run_cases(ctx, cases, tmpdir, table):
     """cases: list of dicts with doc,user,platform,stage,(name),prim + kind specific fields; a case without
     `flags` is also asked through the flattened views listed in case["views"] (default: instance)"""
@@ -1161,9 +1344,12 @@ def run_cases(ctx, cases, tmpdir, table):
         except Exception as exc:  # the package does not even load: not a case of this property
             plans.append(None)
             ctx.tag("build-failed:" + type(exc).__name__)
+            judge_build_failure(ctx, case, exc, tmpdir)
             continue
         out = impl_resolve(conc, comp, case["platform"], case.get("prim", False), case.get("flags"))
         plan = {"out": out, "views": [], "main": len(reqs), "strict": None, "flatten": {}}
+        if case.get("check_user_vars"):
+            plan["user_vars"] = impl_user_variables(doc, conc.c04_source[1], case["platform"])
         req = dict(user_req(user), op="resolve", desc=desc, nstages=nstages,
                    platform=case["platform"], stage=comp[0], name=comp[1],
                    prim=bool(case.get("prim", False)), fuel=FUEL)
@@ -1212,7 +1398,19 @@ def run_cases(ctx, cases, tmpdir, table):
         for view, ans, _, err in plan["views"]:
             tags.append("view:%s:%s" % (view, "unavailable:" + err["error"] if ans is None else
                                         "ok" if "ok" in ans else ans["error"]))
+        for f in user_files(case.get("user")):
+            tags.append("user-file:" + ("conf:" + f["conf"]["style"] if f.get("conf") else "yaml"))
+            if f.get("conf") and any(int(st) >= 10 for st in (f.get("stages") or {})):
+                tags.append("user-file:conf-with-section-of-stage>=10")
+                if case["stage"] >= 10 and case["stage"] in f["stages"]:
+                    tags.append("asked-stage>=10-has-conf-section")
         ctx.case(slim, nontrivial=nontrivial, tags=tags)
+        if "user_vars" in plan:
+            got, exp = plan["user_vars"], {"ok": expected_user_variables(user_files(case["user"]))}
+            if not canon_eq(got, exp):
+                ctx.fail("get_user_variables-differs-from-the-variable-files", slim,
+                         {"difference": first_difference(exp.get("ok"), got.get("ok")) if "ok" in got else got,
+                          "reported": got})
         # ---- oracles --------------------------------------------------------------------
         judge_answer(ctx, slim, out, table, mout)
         for view, ans, _, err in plan["views"]:
@@ -1376,6 +1574,7 @@ def gen_sequence(rng):
                     variable_target(doc, files, tag, stage, 0)["v"] = "v%s%d" % (tag, stage)
                 elif r < 0.6:
                     variable_target(doc, files, tag, stage, 0)["unrelated"] = "u"
+        maybe_confify(rng, files)
         user = trim_user_files(files)
     # components whose PRIMITIVE and strict resolutions differ: they are not replicated but mention %(replica)s
     # (primitive: tolerated - the reference stays, a failed type conversion is discarded; strict: an error)
@@ -1639,8 +1838,17 @@ def shrink_sequence(what, case):
 
 def run_sequences(ctx, cases, tmpdir, table):
     runs, reqs = [], []
+    loaded = []
     for case in cases:
-        desc, nstages, queries, failures, vqueries, flats = run_sequence(case, tmpdir)
+        try:
+            desc, nstages, queries, failures, vqueries, flats = run_sequence(case, tmpdir)
+        except Exception as exc:
+            if case.get("user") is None:
+                raise
+            ctx.tag("build-failed:" + type(exc).__name__)
+            judge_build_failure(ctx, case, exc, tmpdir)
+            continue
+        loaded.append(case)
         runs.append((queries, failures, vqueries, flats, len(reqs)))
         common = dict(user_req(case.get("user")), desc=desc, nstages=nstages, fuel=FUEL)
         for q, _ in queries + vqueries:
@@ -1652,7 +1860,7 @@ def run_sequences(ctx, cases, tmpdir, table):
     for r in op_raised:
         ctx.tag("seq-read-raised:" + r)
     del op_raised[:]
-    for case, (queries, failures, vqueries, flats, base) in zip(cases, runs):
+    for case, (queries, failures, vqueries, flats, base) in zip(loaded, runs):
         ro = [o for o in case["ops"] if o["op"] != "resolveAll"]
         tags = ["kind:sequence"] + ["seq-op:" + (o["op"] if o["op"] != "read" else "read:" + o["what"]) for o in ro]
         tags += [flag_tag(o["flags"]) for o in ro if o["op"] == "queryF"]
@@ -1792,7 +2000,10 @@ def later_streams(ctx, tmpdir, n_again, n_child, hash_seeds):
     second = []
     for case, first in again:
         views = [k for k in first if k != "direct"]
-        res = impl_answers(case, tmpdir, views)
+        try:
+            res = impl_answers(case, tmpdir, views)
+        except Exception as exc:
+            res = {k: {"crash": type(exc).__name__} for k in first}
         second.append((case, views, res))
         ctx.tag("again:" + case["kind"])
         if not canon_eq(coarse_answers(first), coarse_answers(res)):
@@ -1915,10 +2126,87 @@ def gen_variable_file(rng, names):
         f["global"] = {n: val() for n in names if rng.random() < 0.4}
     if rng.random() < 0.85:
         f["stages"] = {}
-        for st in (0, 1, 2, 10, 11):
+        for st in (0, 1, 2, 10, 11, 12):
             if rng.random() < 0.45:
                 f["stages"][st] = {n: val() for n in names if rng.random() < 0.4}
+    if rng.random() < 0.45:
+        # the INI flavour (sections spelled in any letter case; [GLOBAL] only when it says something)
+        f.setdefault("global", {})
+        f.setdefault("stages", {})
+        confify(f, conf_spec(rng))
     return f
+
+
+CONF_VALUES = ["s", "", "x y", "%(a)s", "0", "10", "-3", "2.5", "True", '"quoted text"', "'single'", "a = b", "a:b",
+               "k=v;w", "x ; not a comment", "x # neither", "100%", "[not a section]", "1_0"]
+BAD_SECTIONS = ["STAGEX", "STG1", "global", "Global", "STAGE", "STAGE1a", "platform", "STAGE one"]
+
+
+def gen_conf_sections(rng):
+    """the sections of one .conf variable file: optional [GLOBAL], stage sections for a subset of the stages
+    0..13 (1, 10, 11, 12 frequent), every section spelled in a style of its own; 12%: one section whose name is
+    neither GLOBAL nor stage<index>"""
+    names = ["a", "b", "Key", "key", "n10", "with space"]
+    options = lambda: {n: rng.choice(CONF_VALUES) for n in names if rng.random() < 0.4}
+    secs = []
+    if rng.random() < 0.7:
+        secs.append(("GLOBAL", options()))
+    exotic = rng.random() < 0.15
+    styles = sorted(CONF_STYLES) + (sorted(EXOTIC_STYLES) * 2 if exotic else [])
+    for st in range(14):
+        if rng.random() < (0.6 if st in (1, 10, 11, 12) else 0.2):
+            secs.append((section_name(rng.choice(styles), st), options()))
+    bad = rng.random() < 0.12
+    if bad:
+        secs.append((rng.choice(BAD_SECTIONS), options()))
+    rng.shuffle(secs)
+    return {"kind": "conf-loader", "sections": [[n, o] for n, o in secs], "delim": rng.choice(CONF_DELIMS), "bad": bad,
+            "exotic": exotic}
+
+
+CONF_NAME = re.compile(r"^[sS][tT][aA][gG][eE] ?0*([0-9]+)$")
+
+
+def unit_conf_loader(ctx, rng, n, tmpdir, given=None):
+    """FlowIRExperimentConfiguration.read_user_variables on a .conf file == Tree.confUser, and (model
+    independent) every section reaches the scope its name says: [GLOBAL] the global one, [stage<n>] - any letter
+    case, any number of digits - the one of stage n and no other"""
+    import experiment.model.conf as C
+    cases = given if given is not None else [gen_conf_sections(rng) for _ in range(n)]
+    mouts = ctx.model([{"op": "confUser", "sections": c["sections"]} for c in cases])
+    for case, mo in zip(cases, mouts or [None] * len(cases)):
+        path = os.path.join(tmpdir, "loader.conf")
+        with open(path, "w") as fh:
+            fh.write(render_conf([(nm, o) for nm, o in case["sections"]], case["delim"]))
+        errs = []
+        try:
+            got = C.FlowIRExperimentConfiguration.read_user_variables(path, errs)
+            out = {"error": "bad-section"} if errs else {"ok": prune_empty(user_json(got))}
+        except BaseException as exc:
+            if isinstance(exc, (KeyboardInterrupt, SystemExit)):
+                raise
+            out = {"error": "bad-section"}
+        stages = [int(CONF_NAME.match(nm).group(1)) for nm, _ in case["sections"] if CONF_NAME.match(nm)]
+        ctx.case(case, nontrivial=len(stages) >= 2 and max(stages) >= 10,
+                 tags=["kind:conf-loader", "conf-loader:" + ("ok" if "ok" in out else out["error"]),
+                       "conf-loader:stages>=10:%d" % sum(1 for st in stages if st >= 10)] +
+                      (["conf-loader:exotic-spelling"] if case.get("exotic") else []))
+        if not case["bad"] and not case.get("exotic"):
+            exp = {"global": {}, "stages": {}}
+            for nm, o in case["sections"]:
+                if nm == "GLOBAL":
+                    exp["global"] = dict(o)
+                else:
+                    exp["stages"][str(int(CONF_NAME.match(nm).group(1)))] = dict(o)
+            exp = prune_empty(exp)
+            if "ok" not in out:
+                ctx.fail("well-formed-variable-files-are-rejected", case, out)
+            elif not canon_eq(exp, out["ok"]):
+                ctx.fail("conf-section-filed-under-wrong-scope", case,
+                         {"difference": first_difference(exp, out["ok"]), "loaded": out["ok"]})
+        if mo is not None:
+            ctx.compare("read_user_variables(*.conf) == Tree.confUser", case,
+                        {"ok": prune_empty(mo["ok"])} if "ok" in mo else {"error": mo.get("error")}, out)
 
 
 def unit_layer_files(ctx, rng, n, tmpdir, given=None):
@@ -1945,16 +2233,12 @@ def unit_layer_files(ctx, rng, n, tmpdir, given=None):
             out = {"error": type(exc).__name__}
         sections = sum(1 for f in files for st in (f.get("stages") or {}))
         ctx.case(case, nontrivial=len(files) >= 2 and sections >= 2,
-                 tags=["kind:variable-files", "files:%d" % len(files), "layer-files:" + ("ok" if "ok" in out else out["error"])])
+                 tags=["kind:variable-files", "files:%d" % len(files), "layer-files:" + ("ok" if "ok" in out else out["error"])] +
+                      ["variable-file:" + ("conf" if f.get("conf") else "yaml") for f in files])
         if "ok" not in out:
             ctx.fail("well-formed-variable-files-are-rejected", case, out)
             continue
-        exp = {"global": {}, "stages": {}}
-        for f in files:
-            exp["global"].update(to_json(f.get("global") or {}))
-            for st, vs in (f.get("stages") or {}).items():
-                exp["stages"].setdefault(str(st), {}).update(to_json(vs or {}))
-        exp = prune_empty(exp)
+        exp = expected_user_variables(files)
         if not canon_eq(exp, out["ok"]):
             ctx.fail("variable-of-an-earlier-file-lost-or-not-shadowed", case,
                      {"difference": first_difference(exp, out["ok"]), "layered": out["ok"]})
@@ -2073,7 +2357,20 @@ def run(ctx):
                 "Sequences: half of the components own a variable that reaches `v` (which siblings re-define). (m) "
                 "a sample of the cases (every sibling case, every 5th other) is run AGAIN at the end of the run in "
                 "another order (answers must be the first ones) and in 2 (thorough: 3) child processes with other "
-                "PYTHONHASHSEEDs (answers must be this process's).")
+                "PYTHONHASHSEEDs (answers must be this process's). (n) variable files come in two flavours: YAML and "
+                "INI (*.conf: [GLOBAL] / [stage<n>] sections, the word stage in upper / lower / title / mixed case, "
+                "with leading zeros or a blank, options delimited by = or :, sections in ascending or descending "
+                "order; every value a text): 30-45% of the files of the mask / chain / sibling / sequence streams "
+                "and of the layer_many_variable_files stream are written as .conf files. (o) stages: workflows "
+                "with 12-14 stages, one component of the same name per stage, three variables defined by the "
+                "package globally and per stage, 1-2 variable files (65% .conf) with sections for a random subset of "
+                "the stages (1, 10, 11 and the last one frequent), one case per stage judged by layering + "
+                "substitution of the ORIGINAL document, directly and through the flattened views / the "
+                "configuration object that reads the files itself; get_user_variables() of that object must equal "
+                "'last file wins per scope'. (p) conf-loader: read_user_variables on .conf files with sections "
+                "for a subset of the stages 0-13 in mixed spellings (12% with one malformed section name) == "
+                "Tree.confUser and == 'the section named stage<n> is the scope of stage n'; non-trivial = >= 2 "
+                "stage sections one of which is of a stage >= 10.")
     ctx.assumptions = [
         "generated strings contain no '[' (array access is not modelled) and no dotted variable names",
         "int()/float() literals are drawn from the documented subset (sign+digits; <=10 integer and <=4 fractional digits)",
@@ -2089,7 +2386,9 @@ def run(ctx):
                        "FlowIRExperimentConfiguration are judged through the resolutions they answer only")
     ctx.assumptions.append("flattened views are compared for components that are not replicated (no "
                            "workflowAttributes.replicate) and documents without $import components")
-    ctx.assumptions.append("variable files are YAML with scalar values (strings, numbers, booleans); across files the "
+    ctx.assumptions.append(".conf variable files have no [DEFAULT] section and no two sections that name the same stage "
+                           "in different spellings (the later one replaces the earlier one: modelled, not generated)")
+    ctx.assumptions.append("variable files are YAML or INI (*.conf) with scalar values (strings, numbers, booleans; texts in .conf files); across files the "
                            "sections of a stage outrank the global sections (what the code does; the property text "
                            "names user-supplied variables as ONE layer)")
     tmpdir = tempfile.mkdtemp(prefix="c04-")
@@ -2122,7 +2421,8 @@ def run(ctx):
             foreign = [t for t in FOREIGN if rng.random() < 0.4]
             # variable files that hold a section for the stage which does not mention the variable
             fill = [k for k in (0, 1) if rng.random() < 0.5]
-            case = mask_case("variable-mask", 0, m, [], foreign, pl, st, fill=fill)
+            conf = [conf_spec(rng) if rng.random() < 0.3 else None for _ in (0, 1)]   # YAML or INI flavour
+            case = mask_case("variable-mask", 0, m, [], foreign, pl, st, fill=fill, conf=conf)
             doc, user, exp = materialise_mask(case)
             case.update(doc=doc, user=user, expect=exp, prim=False)
             cases.append(case)
@@ -2146,6 +2446,9 @@ def run(ctx):
         # (e'') siblings of one stage with private variables and variable-to-variable references of their own
         for _ in range(60 if quick else 400):
             cases.extend(gen_siblings(rng))
+        # (o) workflows with 12-14 stages, user variables from YAML and .conf files, every stage asked
+        for _ in range(6 if quick else 100):
+            cases.extend(gen_stages(rng))
         # every case is also asked through the flattened forms of its description (what the runtime executes)
         for case in cases:
             r = rng.random()
@@ -2162,22 +2465,30 @@ def run(ctx):
         # (g) the same cases asked with the other keyword variants of get_component_configuration
         nonstd = [f for f in ALL_FLAGS if f != STD_FLAGS]
         for case in list(cases):
-            if rng.random() < 0.5:
+            if rng.random() < (0.5 if case["kind"] != "stages" else 0.1):
                 twin = copy.deepcopy(case)
                 twin["flags"] = rng.choice(nonstd)
                 twin["prim"] = twin["flags"]["prim"]
                 cases.append(twin)
+        import time
+        phases, t0 = {}, time.time()
         run_cases(ctx, cases, tmpdir, table)
+        phases["cases"], t0 = round(time.time() - t0, 1), time.time()
         # (h) sequences of read-only operations on one object, every component resolved in between
         seqs = [gen_sequence(rng) for _ in range(150 if quick else 1500)]
         run_sequences(ctx, SEQ_CORPUS + seqs, tmpdir, table)
+        phases["sequences"], t0 = round(time.time() - t0, 1), time.time()
         # (f) unit relations
         unit_override(ctx, rng, 400 if quick else 6000)
         unit_interp(ctx, rng, 600 if quick else 10000)
         unit_layer_files(ctx, rng, 150 if quick else 2500, tmpdir)
+        unit_conf_loader(ctx, rng, 150 if quick else 2500, tmpdir)
+        phases["units"], t0 = round(time.time() - t0, 1), time.time()
         # the same cases later in this process / in processes with other hash seeds
         later_streams(ctx, tmpdir, 160 if quick else 800, 60 if quick else 250,
                       [ctx.seed + 101, ctx.seed + 202] if quick else [ctx.seed + 101, ctx.seed + 202, 4242])
+        phases["later"] = round(time.time() - t0, 1)
+        ctx.extra["phase_wall_s"] = phases
     finally:
         shutil.rmtree(tmpdir, ignore_errors=True)
 
@@ -2261,6 +2572,8 @@ def replay(ctx, doc):
                 if isinstance(f.get("stages"), dict):
                     f["stages"] = {int(k): v for k, v in f["stages"].items()}
             unit_layer_files(ctx, None, 1, tmpdir, given=[files])
+        elif kind == "conf-loader":
+            unit_conf_loader(ctx, None, 1, tmpdir, given=[case])
         elif kind == "sequence":
             run_sequences(ctx, [fix_int_keys(case)], tmpdir, table)
         else:
